@@ -189,7 +189,7 @@ reg(Alg("cbldm", "partition", lambda: prt.cbldm, op="cbldm", param="k",
         unmodelled=lambda case, fmt: case["p"]["k"] != 2))      # argument validation is modelled separately (cbldm_validate, C19)
 
 reg(Alg("bin_completion", "pack", lambda: prtpy.packing.bin_completion,
-        unmodelled=lambda case, fmt: fmt not in ("list", "array")))     # names != values: finding KF4
+        unmodelled=lambda case, fmt: fmt not in ("list", "array")))     # the model is for names = values; named input (fix F15: search on the values, names put back) is judged by the verified checkers only
 
 
 def multifit_float_divergence(case, ids):
